@@ -11,6 +11,7 @@ harness/text.cpp (object sequences in the canonical dump syntax, "/" between obj
 import Driver.Common
 import Osmium.Model.OplFmt
 import Osmium.Model.XmlFmt
+import Osmium.Model.HostileText
 
 open Osmium Osmium.Osm Osmium.TextFmt
 
@@ -223,7 +224,8 @@ def step (line : String) : String :=
   | ["rd", "opl", _, h] =>
     match Driver.unhex h with
     | some bs =>
-      match OplFmt.parseFile {} bs with
+      -- = OplFmt.parseFile {} bs (Props/C03Text.lean `opl_driver_lines_eq`), with linear-time line splitting
+      match OplFmt.parseLines {} ((HostileText.specLinesFast bs).map fun l => HostileText.cstrFast l []) with
       | .ok os => dumpAll {} os
       | .error e => oplErr e
     | none => "bad-op"
